@@ -31,12 +31,13 @@ const (
 )
 
 type wwCase struct {
-	Mode   string `json:"mode"` // "writers"
-	Pre    []op   `json:"pre"`
-	Victim op     `json:"victim"`
-	K      int    `json:"paused_before_lock_index"`
-	Others []op   `json:"run_while_paused"`
-	Dwell  bool   `json:"dwell"` // stay in the window for a few polling intervals
+	Mode   string   `json:"mode"` // "writers"
+	Pre    []op     `json:"pre"`
+	Victim op       `json:"victim"`
+	K      int      `json:"paused_before_lock_index"`
+	Others []op     `json:"run_while_paused"`
+	Dwell  bool     `json:"dwell"`           // stay in the window for a few polling intervals
+	Names  []string `json:"names,omitempty"` // component number -> name (names.go); absent: plain names
 }
 
 type wwObs struct {
@@ -104,6 +105,7 @@ func hooksOf(ctl *hutil.Ctl, pre []op, v op) int {
 
 func runWriters(ctl *hutil.Ctl, c wwCase) wwObs {
 	var w wwObs
+	nameTab = c.Names
 	h := health.NewHealth()
 	for _, o := range c.Pre {
 		apply(h, o)
@@ -261,6 +263,7 @@ func genWriters(r *hutil.Rand) wwCase {
 		c.Others = append(c.Others, o)
 	}
 	c.Dwell = r.Chance(1, 4)
+	c.Names, _ = pickNames(r, names)
 	return c
 }
 
@@ -281,7 +284,7 @@ func writersStage(sum *hutil.Summary, ctl *hutil.Ctl, r *hutil.Rand, n int) {
 			if msg := judgeWriters(c, w); msg != "" && reported < 5 {
 				reported++
 				rp := map[string]any{"mode": c.Mode, "pre": c.Pre, "victim": c.Victim, "paused_before_lock_index": c.K,
-					"run_while_paused": c.Others, "dwell": c.Dwell, "observed": w}
+					"run_while_paused": c.Others, "dwell": c.Dwell, "names": c.Names, "observed": w}
 				sum.FailKey("oracle", "writers:overlapping-calls", "overlapping registrations / ready-marks: "+msg, rp)
 			}
 			same := false
@@ -290,7 +293,7 @@ func writersStage(sum *hutil.Summary, ctl *hutil.Ctl, r *hutil.Rand, n int) {
 					same = true
 				}
 			}
-			sum.Count("writers:"+fmt.Sprint(c.Pre, c.Victim, c.K, c.Others), w.Paused)
+			sum.Count("writers:"+fmt.Sprint(c.Pre, c.Victim, c.K, c.Others, c.Names), w.Paused)
 			switch {
 			case same && c.Victim.Ready:
 				sum.Dist("writers_same_name_victim_ready")
